@@ -7,7 +7,7 @@
    case "nothing is stamped", where `vis u = ids u`). *)
 From Coq Require Import NArith PArith List Bool Lia Arith FMapPositive Permutation.
 From QV.Base Require Import Res.
-From QV.Tree Require Import TreeModel TreeLlrb QTree TreeSpec QTreeProofs.
+From QV.Tree Require Import TreeModel TreeLlrb QTree TreeSpec QTreeProofs TreeIds.
 Import ListNotations.
 
 Definition ids (t : tree node) : list positive := map nid (elements t).
@@ -290,3 +290,255 @@ Proof. intros H. apply (walk_all u); [destruct u; [discriminate|congruence]|exac
 Definition left_part c l x r m := do_left c l x r m (walk_all l).
 Definition rest_part c l x r m := do_rest c l x r m (walk_all r).
 End Machine.
+
+(* ------------------------------------------------------------------------------------------------------ *)
+(* Part 2: node ids in the tree; the identity / traversal-state invariant *)
+Lemma lookup_none u i : ~ In i (ids u) -> lookup u i = None.
+Proof. induction u as [|c l IHl x r IHr]; [reflexivity|]. rewrite ids_node. intros H. cbn [lookup].
+  destruct (Pos.eqb_spec (nid x) i) as [e|_]; [exfalso; apply H; apply in_or_app; right; left; exact e|].
+  rewrite IHl, IHr; auto; intros Hin; apply H; apply in_or_app; [right; right|left]; auto. Qed.
+Lemma lookup_some u i : In i (ids u) -> exists y, lookup u i = Some y.
+Proof. induction u as [|c l IHl x r IHr]; [intros []|]. rewrite ids_node. intros H. cbn [lookup].
+  destruct (Pos.eqb_spec (nid x) i) as [_|Hn]; [eexists; reflexivity|].
+  apply in_app_or in H as [H|[H|H]].
+  - destruct (IHl H) as [y ->]. eexists; reflexivity.
+  - contradiction.
+  - destruct (lookup l i); [eexists; reflexivity|]. apply IHr; auto. Qed.
+Lemma lookup_in u i y : lookup u i = Some y -> In i (ids u).
+Proof. intros H. destruct (in_dec Pos.eq_dec i (ids u)) as [Hi|Hi]; [exact Hi|]. rewrite (lookup_none _ _ Hi) in H. discriminate. Qed.
+Lemma lookup_left c l x r i : NoDup (ids (T c l x r)) -> In i (ids l) -> lookup (T c l x r) i = lookup l i.
+Proof. intros Hnd Hi. destruct (nodup_node _ _ _ _ Hnd) as (_ & _ & Hxl & _ & _). cbn [lookup].
+  destruct (Pos.eqb_spec (nid x) i) as [<-|_]; [contradiction|]. destruct (lookup_some _ _ Hi) as [y ->]. reflexivity. Qed.
+Lemma lookup_right c l x r i : NoDup (ids (T c l x r)) -> In i (ids r) -> lookup (T c l x r) i = lookup r i.
+Proof. intros Hnd Hi. destruct (nodup_node _ _ _ _ Hnd) as (_ & _ & _ & Hxr & Hd). cbn [lookup].
+  destruct (Pos.eqb_spec (nid x) i) as [<-|_]; [contradiction|]. rewrite lookup_none; [reflexivity|]. intros Hl. exact (Hd _ Hl Hi). Qed.
+Lemma wfv_lift t t' u : (forall i, In i (ids u) -> lookup t' i = lookup t i) -> wfv t u -> wfv t' u.
+Proof. induction u as [|c l IHl x r IHr]; [auto|]. rewrite ids_node. cbn [wfv]. intros H (H1 & H2 & H3). split; [|split].
+  - rewrite H; [exact H1|]. apply in_or_app; right; left; auto.
+  - apply IHl; auto. intros; apply H; apply in_or_app; auto.
+  - apply IHr; auto. intros; apply H; apply in_or_app; right; right; auto. Qed.
+(* every node object is found under its id, with the ids of its children *)
+Theorem lookup_sub t : NoDup (ids t) -> wfv t t.
+Proof. induction t as [|c l IHl x r IHr]; [intros; exact I|]. intros Hnd.
+  destruct (nodup_node _ _ _ _ Hnd) as (Hl & Hr & _). cbn [wfv]. split; [|split].
+  - cbn [lookup]. rewrite Pos.eqb_refl. reflexivity.
+  - apply (wfv_lift l); [|auto]. intros i Hi. apply lookup_left; auto.
+  - apply (wfv_lift r); [|auto]. intros i Hi. apply lookup_right; auto. Qed.
+Definition getn (t : tree node) (i : positive) : option node := match lookup t i with Some (x, _, _) => Some x | None => None end.
+Lemma wfv_getn t u x : wfv t u -> In x (elements u) -> getn t (nid x) = Some x.
+Proof. induction u as [|c l IHl y r IHr]; [intros _ []|]. cbn [wfv elements]. intros (H1 & H2 & H3) H.
+  apply in_app_or in H as [H|[<-|H]]; auto. unfold getn. rewrite H1. reflexivity. Qed.
+Lemma getn_elem t x : NoDup (ids t) -> In x (elements t) -> getn t (nid x) = Some x.
+Proof. intros H. apply wfv_getn. apply lookup_sub. exact H. Qed.
+
+Local Open Scope N_scope.
+Definition IdInv (s : tbl) : Prop :=
+  NoDup (ids (root s)) /\ (forall j, In j (ids (root s)) -> (j < nextid s)%positive) /\
+  1 <= ttid s <= 255 /\ (forall j, tid_of (tids s) j <= ttid s) /\
+  (forall j, (nextid s <= j)%positive -> tid_of (tids s) j = 0).
+(* no node of the table carries the current stamp *)
+Definition Clean (s : tbl) : Prop := forall j, In j (ids (root s)) -> tid_of (tids s) j <> ttid s.
+
+Lemma IdInv_init : IdInv init.
+Proof. unfold IdInv, init. cbn [root nextid ttid tids ids elements map]. split; [constructor|]. split; [intros j []|]. split; [lia|].
+  split; intros j; unfold tid_of; rewrite PM.gempty; [lia|reflexivity]. Qed.
+Lemma Clean_init : Clean init.
+Proof. intros j []. Qed.
+
+Lemma reset_root s : root (reset_iter s) = root s.
+Proof. unfold reset_iter. destruct ((ttid s + 1) mod 256 =? 0); reflexivity. Qed.
+Lemma reset_num s : num (reset_iter s) = num s.
+Proof. unfold reset_iter. destruct ((ttid s + 1) mod 256 =? 0); reflexivity. Qed.
+Lemma reset_nextid s : nextid (reset_iter s) = nextid s.
+Proof. unfold reset_iter. destruct ((ttid s + 1) mod 256 =? 0); reflexivity. Qed.
+Lemma reset_nexts s : nexts (reset_iter s) = match rootid (root s) with Some r => PM.remove r (nexts s) | None => nexts s end.
+Proof. unfold reset_iter. destruct ((ttid s + 1) mod 256 =? 0); reflexivity. Qed.
+(* after reset_iterator() every stamp is older than the sequencer *)
+Lemma reset_lt s : IdInv s -> forall j, tid_of (tids (reset_iter s)) j < ttid (reset_iter s).
+Proof. intros (_ & _ & Ht & Hle & _) j. unfold reset_iter. destruct ((ttid s + 1) mod 256 =? 0) eqn:E; cbn [tids ttid].
+  - unfold tid_of. rewrite PM.gempty. lia.
+  - apply N.eqb_neq in E. specialize (Hle j). assert (ttid s + 1 < 256) by (destruct (N.eq_dec (ttid s) 255) as [e|]; [rewrite e in E; exfalso; apply E; reflexivity|lia]).
+    rewrite N.mod_small by lia. lia. Qed.
+Lemma reset_inv s : IdInv s -> IdInv (reset_iter s) /\ Clean (reset_iter s).
+Proof. intros HI. pose proof (reset_lt s HI) as Hlt. destruct HI as (Hnd & Hlt' & Ht & Hle & Hf).
+  split; [|intros j _; specialize (Hlt j); lia].
+  unfold IdInv. rewrite reset_root, reset_nextid. split; [exact Hnd|]. split; [exact Hlt'|]. split; [|split].
+  - unfold reset_iter. destruct ((ttid s + 1) mod 256 =? 0) eqn:E; cbn [ttid]; [lia|]. apply N.eqb_neq in E.
+    pose proof (N.mod_upper_bound (ttid s + 1) 256 ltac:(lia)) as HH. set (x := (ttid s + 1) mod 256) in *. clearbody x. lia.
+  - intros j. specialize (Hlt j). lia.
+  - intros j Hj. unfold reset_iter. destruct ((ttid s + 1) mod 256 =? 0); cbn [tids]; [unfold tid_of; rewrite PM.gempty; reflexivity|auto]. Qed.
+
+(* stamps change only on nodes of the tree, and only to the stamp of the traversal *)
+Definition tids_step (t : tree node) (tid : N) (tm tm' : PM.t N) : Prop :=
+  forall j, tid_of tm' j = tid_of tm j \/ (tid_of tm' j = tid /\ In j (ids t)).
+Lemma tids_step_refl t tid tm : tids_step t tid tm tm.
+Proof. intros j. left. reflexivity. Qed.
+Lemma tids_step_trans t tid a b c : tids_step t tid a b -> tids_step t tid b c -> tids_step t tid a c.
+Proof. intros H1 H2 j. destruct (H2 j) as [E|E]; [rewrite E; apply H1|right; exact E]. Qed.
+Lemma mstep_tids t tid m a m' : mstep t tid m = (a, m') -> tids_step t tid (mtids m) (mtids m').
+Proof. unfold mstep. destruct (cur m) as [c|]; [|intros H; inversion H; apply tids_step_refl].
+  destruct (lookup t c) as [[[x lo] ro]|] eqn:L; [|intros H; inversion H; apply tids_step_refl].
+  destruct (unst tid m lo). { intros H; inversion H. destruct lo; apply tids_step_refl. }
+  destruct (negb (tid_of (mtids m) c =? tid)).
+  { intros H; inversion H. cbn [mtids]. intros j. rewrite tid_of_add. destruct (Pos.eqb_spec j c) as [->|]; [right|left; reflexivity].
+    split; [reflexivity|]. eapply lookup_in; eauto. }
+  destruct (unst tid m ro); intros H; inversion H; [destruct ro|]; apply tids_step_refl. Qed.
+Lemma gn_loop_tids t tid : forall f m r m', gn_loop f t tid m = Ok (r, m') -> tids_step t tid (mtids m) (mtids m').
+Proof. induction f as [|f IH]; intros m r m' H; [discriminate|]. cbn [gn_loop] in H.
+  destruct (mstep t tid m) as [[| i | |] m1] eqn:E; try discriminate.
+  - eapply tids_step_trans; [eapply mstep_tids; eauto|eapply IH; eauto].
+  - inversion H; subst. eapply mstep_tids; eauto.
+  - inversion H; subst. eapply mstep_tids; eauto. Qed.
+Lemma idinv_stamp s tm nx : IdInv s -> tids_step (root s) (ttid s) (tids s) tm ->
+  IdInv (mkTbl (root s) (num s) (ttid s) (nextid s) tm nx).
+Proof. intros (Hnd & Hlt & Ht & Hle & Hf) Hs. unfold IdInv. cbn [root nextid ttid tids]. repeat split; auto; try lia.
+  - intros j. destruct (Hs j) as [E|[E _]]; rewrite E; [apply Hle|lia].
+  - intros j Hj. destruct (Hs j) as [E|[_ Hin]]; [rewrite E; auto|]. apply Hlt in Hin. lia. Qed.
+
+(* one call of getnext: the first call of a walk is a call on the reset table with the cursor at the root *)
+Lemma qgetnext_first s ct : root s <> E ->
+  qgetnext s (ct, None) =
+  match qgetnext (reset_iter s) (ttid (reset_iter s), rootid (root s)) with
+  | Ok (s', c', Some kv) => Ok (s', c', Some kv)
+  | Ok (s', c', None) => Ok (s', (fst c', None), None)
+  | Crash => Crash | Fuel => Fuel
+  end.
+Proof. intros HR. unfold qgetnext. cbn [fst snd]. destruct (root s) as [|c l x r] eqn:R; [congruence|].
+  cbn [rootid fst snd]. rewrite !reset_root, !R. cbn [rootid fst snd].
+  destruct (gn_loop (gn_fuel (reset_iter s)) (T c l x r) (ttid (reset_iter s))
+     (mkMst (Some (nid x)) (tids (reset_iter s)) (nexts (reset_iter s)))) as [[[i|] m]| |]; cbn [bind fst snd]; try reflexivity.
+  destruct (lookup (T c l x r) i) as [[[y lo] ro]|]; reflexivity. Qed.
+
+Lemma qgetnext_cont_inv s tid i s' c' r : qgetnext s (tid, Some i) = Ok (s', c', r) -> IdInv s -> tid = ttid s ->
+  IdInv s' /\ root s' = root s /\ num s' = num s /\ nextid s' = nextid s /\
+  match r with Some _ => snd c' <> None /\ fst c' = ttid s' | None => Clean s' end.
+Proof. unfold qgetnext. cbn [fst snd]. intros H HI ->. apply bind_ok in H as ([o m] & Hg & H). cbn [fst snd] in H.
+  apply gn_loop_tids in Hg. cbn [mtids] in Hg.
+  pose proof (idinv_stamp s (mtids m) (mnexts m) HI Hg) as HI2.
+  destruct o as [j|].
+  - destruct (lookup (root s) j) as [[[y lo] ro]|]; [|discriminate]. inversion H; subst. cbn [root num nextid ttid fst snd].
+    split; [exact HI2|]. repeat split; auto; try discriminate.
+  - inversion H; subst. destruct (reset_inv _ HI2) as (HI3 & HC). rewrite reset_root, reset_num, reset_nextid.
+    split; [exact HI3|]. split; [reflexivity|]. split; [reflexivity|]. split; [reflexivity|exact HC]. Qed.
+
+Lemma qgetnext_inv s c s' c' r : qgetnext s c = Ok (s', c', r) -> IdInv s -> (snd c <> None -> fst c = ttid s) ->
+  IdInv s' /\ root s' = root s /\ num s' = num s /\ nextid s' = nextid s /\
+  match r with Some _ => snd c' <> None /\ fst c' = ttid s' | None => Clean s' end.
+Proof. destruct c as [ct [i|]]; cbn [fst snd]; intros H HI Hc.
+  - eapply qgetnext_cont_inv; eauto. apply Hc. discriminate.
+  - destruct (root s) as [|cl l x rr] eqn:R.
+    + unfold qgetnext in H. cbn [snd] in H. rewrite R in H. inversion H; subst. split; [exact HI|]. split; [auto|]. split; [reflexivity|]. split; [reflexivity|]. intros j. rewrite R. intros [].
+    + rewrite qgetnext_first in H by (rewrite R; discriminate).
+      destruct (qgetnext (reset_iter s) (ttid (reset_iter s), rootid (root s))) as [[[s1 c1] r1]| |] eqn:Q; try discriminate.
+      rewrite R in Q. cbn [rootid] in Q. destruct (reset_inv _ HI) as (HI1 & _).
+      destruct (qgetnext_cont_inv _ _ _ _ _ _ Q HI1 eq_refl) as (A & B & C & D & F).
+      rewrite reset_root in B. rewrite reset_num in C. rewrite reset_nextid in D.
+      destruct r1 as [kv|]; inversion H; subst; (split; [exact A|]; split; [congruence|]; split; [exact C|]; split; [exact D|]; exact F). Qed.
+
+Lemma walk_n_inv : forall n s c acc s' l e, walk_n n s c acc = Ok (s', l, e) -> IdInv s -> (snd c <> None -> fst c = ttid s) ->
+  IdInv s' /\ root s' = root s /\ num s' = num s /\ nextid s' = nextid s /\ (e = true -> Clean s').
+Proof. induction n as [|n IH]; intros s c acc s' l e H HI Hc; cbn [walk_n] in H.
+  - inversion H; subst. split; [exact HI|]. repeat split; auto. discriminate.
+  - apply bind_ok in H as ([[s1 c1] r1] & Q & H). destruct (qgetnext_inv _ _ _ _ _ Q HI Hc) as (A & B & C & D & F).
+    destruct r1 as [kv|].
+    + destruct F as (F1 & F2). destruct (IH _ _ _ _ _ _ H A (fun _ => F2)) as (A' & B' & C' & D' & F').
+      split; [exact A'|]. repeat split; auto; congruence.
+    + inversion H; subst. split; [exact A|]. repeat split; auto. Qed.
+
+(* ------------------------------------------------------------------------------------------------------ *)
+(* Part 3: calls of getnext versus the run of the machine *)
+Local Close Scope N_scope.
+Lemma gn_loop_mono t tid : forall f f' m r, gn_loop f t tid m = Ok r -> f <= f' -> gn_loop f' t tid m = Ok r.
+Proof. induction f as [|f IH]; intros f' m r H Hf; [discriminate|]. destruct f' as [|f']; [lia|]. cbn [gn_loop] in *.
+  destruct (mstep t tid m) as [[| | |] m1]; auto. apply IH; auto. lia. Qed.
+Lemma mstep_yield_cur t tid m i m1 : mstep t tid m = (Yield i, m1) -> cur m1 = Some i.
+Proof. unfold mstep. destruct (cur m) as [c|]; [|discriminate]. destruct (lookup t c) as [[[x lo] ro]|]; [|discriminate].
+  destruct (unst tid m lo); [discriminate|]. destruct (negb (tid_of (mtids m) c =? tid)%N); [intros H; inversion H; reflexivity|].
+  destruct (unst tid m ro); discriminate. Qed.
+(* the call that hands out the first node of the run *)
+Lemma runm_first t tid : forall n m i ys m', runm t tid n m = (i :: ys, m') ->
+  exists n1 n2 m1, gn_loop n1 t tid m = Ok (Some i, m1) /\ runm t tid n2 m1 = (ys, m') /\ n1 + n2 <= n /\ cur m1 = Some i.
+Proof. induction n as [|n IH]; intros m i ys m' H; [discriminate|]. cbn [runm] in H.
+  destruct (mstep t tid m) as [[|j| |] m1] eqn:E; try discriminate.
+  - destruct (IH _ _ _ _ H) as (n1 & n2 & m2 & A & B & C & D). exists (S n1), n2, m2. cbn [gn_loop]. rewrite E. repeat split; auto. lia.
+  - destruct (runm t tid n m1) as [zs m2] eqn:R. inversion H; subst. exists 1, n, m1. cbn [gn_loop]. rewrite E.
+    repeat split; auto. eapply mstep_yield_cur; eauto. Qed.
+(* the call that reports the end *)
+Lemma runm_last t tid : forall n m m', runm t tid n m = ([], m') -> cur m' = None -> gn_loop (S n) t tid m = Ok (None, m').
+Proof. induction n as [|n IH]; intros m m' H Hc.
+  - cbn in H. inversion H; subst. cbn [gn_loop]. unfold mstep. rewrite Hc. reflexivity.
+  - cbn [runm] in H. destruct (mstep t tid m) as [[|j| |] m1] eqn:E.
+    + change (gn_loop (S (S n)) t tid m) with (match mstep t tid m with (Move, m2) => gn_loop (S n) t tid m2 | (Yield i, m2) => Ok (Some i, m2) | (Done, m2) => Ok (None, m2) | (Bad, _) => Crash end).
+      rewrite E. apply IH; auto.
+    + destruct (runm t tid n m1); discriminate.
+    + inversion H; subst. change (gn_loop (S (S n)) t tid m) with (match mstep t tid m with (Move, m2) => gn_loop (S n) t tid m2 | (Yield i, m2) => Ok (Some i, m2) | (Done, m2) => Ok (None, m2) | (Bad, _) => Crash end).
+      rewrite E. reflexivity.
+    + inversion H; subst. destruct (mstep_bad _ _ _ _ E) as [-> _]. unfold mstep in E. rewrite Hc in E. discriminate. Qed.
+
+Lemma walk_n_run : forall xs n s tid i acc m' N,
+  runm (root s) tid N (mkMst (Some i) (tids s) (nexts s)) = (map nid xs, m') -> cur m' = None -> N + 1 <= gn_fuel s ->
+  Forall (fun x => getn (root s) (nid x) = Some x) xs ->
+  exists s', walk_n n s (tid, Some i) acc = Ok (s', rev acc ++ map kv (firstn n xs), Nat.ltb (length xs) n).
+Proof. induction xs as [|x xs IH]; intros n s tid i acc m' N Hrun Hc HN Hx.
+  - destruct n as [|n]; [eexists; cbn [walk_n firstn map]; rewrite app_nil_r; reflexivity|].
+    cbn [walk_n]. unfold qgetnext. cbn [fst snd map] in *.
+    rewrite (gn_loop_mono _ _ (S N) (gn_fuel s) _ _ (runm_last _ _ _ _ _ Hrun Hc)) by lia. cbn [bind fst snd].
+    eexists. rewrite app_nil_r. reflexivity.
+  - destruct n as [|n]; [eexists; cbn [walk_n firstn map]; rewrite app_nil_r; reflexivity|].
+    cbn [map] in Hrun. destruct (runm_first _ _ _ _ _ _ _ Hrun) as (n1 & n2 & m1 & Hg & Hr2 & Hn & Hc1).
+    inversion Hx as [|? ? Hx1 Hx2]; subst.
+    cbn [walk_n]. unfold qgetnext. cbn [fst snd].
+    rewrite (gn_loop_mono _ _ n1 (gn_fuel s) _ _ Hg) by lia. cbn [bind fst snd].
+    unfold getn in Hx1. destruct (lookup (root s) (nid x)) as [[[y lo] ro]|]; [|discriminate]. inversion Hx1; subst y.
+    set (s2 := mkTbl (root s) (num s) (ttid s) (nextid s) (mtids m1) (mnexts m1)).
+    assert (Hm1 : mkMst (Some (nid x)) (tids s2) (nexts s2) = m1) by (destruct m1; cbn in *; subst; reflexivity).
+    destruct (IH n s2 tid (nid x) (kv x :: acc) m' n2) as (s' & Hw); auto.
+    + rewrite Hm1. exact Hr2.
+    + unfold gn_fuel in *. cbn [root s2]. lia.
+    + exists s'. change (nkey x, nval x) with (kv x). cbn [bind]. rewrite Hw. cbn [rev firstn map length]. rewrite <- app_assoc. reflexivity.
+Qed.
+
+(* ------------------------------------------------------------------------------------------------------ *)
+Section Iter.
+Variable kcmp : list N -> list N -> comparison.
+Hypothesis kcmp_trans : forall a b c, kcmp a b = Lt -> kcmp b c = Lt -> kcmp a c = Lt.
+Hypothesis kcmp_antisym : forall a b, kcmp a b = CompOpp (kcmp b a).
+Hypothesis kcmp_eq_l : forall a b c, kcmp a b = Eq -> kcmp a c = kcmp b c.
+Local Notation ncmp := (ncmp kcmp).
+Local Notation Inv := (Inv kcmp).
+Local Notation nt := (ncmp_trans kcmp kcmp_trans).
+Local Notation na := (ncmp_antisym kcmp kcmp_antisym).
+Local Notation ne := (ncmp_eq_l kcmp kcmp_eq_l).
+
+Lemma Inv_same s s' : root s' = root s -> num s' = num s -> Inv s -> Inv s'.
+Proof. unfold QTreeProofs.Inv. intros -> ->. auto. Qed.
+
+(* ---- the map operations keep the identity invariant ---- *)
+Lemma put_idinv s k v s' b : qput kcmp s k v = Ok (s', b) -> Inv s -> IdInv s -> IdInv s' /\ (Clean s -> Clean s').
+Proof. unfold qput. destruct k as [|k0 k]. { intros H; inversion H; subst; auto. }
+  intros H ((_ & _ & Hs) & _) (Hnd & Hlt & Ht & Hle & Hf). apply bind_ok in H as (t' & Htp & H). inversion H; subst s' b; clear H.
+  pose proof (tput_elems_exact node ncmp nrepl nt ne _ _ _ Htp Hs) as He.
+  set (n := mkNode (nextid s) (k0 :: k) v) in *.
+  assert (Hids : ids t' = ids (root s) \/ exists l1 l2, ids (root s) = l1 ++ l2 /\ ids t' = l1 ++ nextid s :: l2).
+  { unfold ids. rewrite He. apply (insr_ids node ncmp nrepl positive nid (fun _ _ => eq_refl) n). }
+  assert (Hnew : ~ In (nextid s) (ids (root s))) by (intros Hin; apply Hlt in Hin; lia).
+  assert (Hin : forall j, In j (ids t') -> j = nextid s \/ In j (ids (root s))).
+  { intros j Hj. destruct Hids as [E|(l1 & l2 & E1 & E2)]; [rewrite E in Hj; auto|]. rewrite E2 in Hj. rewrite E1.
+    apply in_app_or in Hj as [Hj|[Hj|Hj]]; auto; right; apply in_or_app; auto. }
+  split.
+  - unfold IdInv. cbn [root nextid ttid tids]. split; [|split; [|split; [exact Ht|split; [exact Hle|]]]].
+    + destruct Hids as [E|(l1 & l2 & E1 & E2)]; [rewrite E; exact Hnd|]. rewrite E2.
+      apply (NoDup_Add (Add_app (nextid s) l1 l2)). rewrite <- E1. auto.
+    + intros j Hj. apply Hin in Hj as [->|Hj]; [lia|]. apply Hlt in Hj. lia.
+    + intros j Hj. apply Hf. lia.
+  - intros HC j Hj. cbn [root tids ttid] in *. apply Hin in Hj as [->|Hj]; [|auto]. rewrite Hf by lia. lia.
+Qed.
+
+Lemma remove_idinv s k s' b : qremove kcmp s k = Ok (s', b) -> IdInv s -> IdInv s' /\ (Clean s -> Clean s').
+Proof. unfold qremove. intros H (Hnd & Hlt & Ht & Hle & Hf). apply bind_ok in H as ([t' b'] & Htr & H). inversion H; subst; clear H. cbn [fst snd].
+  pose proof (tremove_ids node ncmp nmerge positive nid (fun _ _ => eq_refl) _ _ _ _ Htr) as Hc.
+  fold (ids (root s)) (ids t') in Hc. pose proof (cut_incl _ _ _ Hc) as Hi. split.
+  - unfold IdInv. cbn [root nextid ttid tids]. split; [eapply cut_nodup; eauto|]. split; [intros j Hj; apply Hlt; apply Hi; exact Hj|]. auto.
+  - intros HC j Hj. cbn [root tids ttid] in *. apply HC. apply Hi. exact Hj.
+Qed.
+End Iter.
